@@ -3,6 +3,7 @@
 # property's quick check, expect exit 1, and restore the tree. Usage: selftest/mutants.sh C01 [dir]
 # (dir defaults to selftest/mutants/<id>; seeded/<name>/patch.diff files are accepted too)
 cd "$(dirname "$0")/.."
+export VERIF_EVIDENCE_DIR=$(pwd)/scratch/evidence-selftest
 prop=$1
 dir=${2:-selftest/mutants/$prop}
 [ -n "$(git -C /repo status --porcelain)" ] && { echo "/repo working tree is not clean" >&2; exit 2; }
